@@ -170,6 +170,8 @@ def analyse(p, pr, r1, r6):
                 size = None
             if size is not None:
                 sv = p.fold(size, f)
+                if sv is None and isinstance(size, ast.Name) and size.id in f.params + f.kwonly:
+                    sv = _fold_param(p, f, size.id)
                 r1.check(isinstance(sv, int) and not isinstance(sv, bool) and sv > 0, f, rc, f"read size `{norm(size)}` is not a positive constant (folded: {sv!r})", construct=f"read size {norm(size)}")
             if isinstance(st, ast.Assign) and len(st.targets) == 1 and isinstance(st.targets[0], ast.Name) and st.value is rc:
                 chunk_vars.add(st.targets[0].id)
@@ -359,3 +361,31 @@ def _loop_of(n):
     while x is not None and not isinstance(x, (ast.For, ast.While)):
         x = parent(x)
     return x
+
+
+def _fold_param(p, f, name):
+    """constant value of a parameter: every call site passes a constant (all equal) or leaves the constant default"""
+    a = f.node.args
+    pos = a.posonlyargs + a.args
+    default = None
+    if name in [x.arg for x in pos]:
+        i = [x.arg for x in pos].index(name)
+        j = i - (len(pos) - len(a.defaults))
+        if j >= 0:
+            default = a.defaults[j]
+    elif name in [x.arg for x in a.kwonlyargs]:
+        i = [x.arg for x in a.kwonlyargs].index(name)
+        default = a.kw_defaults[i]
+    vals = set()
+    for cq, call in p.callers.get(f.qual, []):
+        arg = p.bind_args(f, call).get(name)
+        passed = arg is not None and any(arg is x for x in list(call.args) + [k.value for k in call.keywords])
+        if passed:
+            vals.add(p.fold(arg, p.funcs[cq]))
+        elif default is not None:
+            vals.add(p.fold(default, None, f.module))
+        else:
+            return None
+    if not p.callers.get(f.qual) and default is not None:
+        vals.add(p.fold(default, None, f.module))
+    return next(iter(vals)) if len(vals) == 1 else None
